@@ -1,16 +1,8 @@
 //! Runtime monitors for the core (no-network) properties.
 //! usage: vcore <check> --tier quick|thorough --seed N --out result.json [--only I] ...
 
-mod c01;
-mod builders;
-mod c02;
-mod common;
-mod corpus;
-mod misc;
-mod parsers;
-mod san;
-mod uris;
 
+use vcore::{builders, c01, c02, misc, parsers, san};
 use vkit::alloc::Counting;
 use vkit::out::Report;
 use vkit::util::Args;
